@@ -69,6 +69,9 @@ type Program struct {
 
 	Stats  Stats
 	Timing map[string]float64
+
+	Overlay      map[string][]byte // files analysed in a rewritten form (normalise.go); nil when the tree is analysed as it is
+	NormaliseLog []string
 }
 
 type Stats struct {
@@ -102,7 +105,11 @@ func env(cfg Config) []string {
 var Modules = []string{".", "internal/cmd/tlgen", "telegram/deeplinks"}
 
 // Load loads and type-checks all three modules and builds SSA for everything including deps.
-func Load(repo string, cfg Config) (*Program, error) {
+func Load(repo string, cfg Config) (*Program, error) { return LoadOverlay(repo, cfg, nil, true) }
+
+// LoadOverlay is Load with some files replaced by in-memory contents (see normalise.go); withSSA=false stops
+// after type-checking (BuildSSA finishes the job).
+func LoadOverlay(repo string, cfg Config, overlay map[string][]byte, withSSA bool) (*Program, error) {
 	t0 := time.Now()
 	p := &Program{Repo: repo, Config: cfg, Fset: token.NewFileSet(), Pkgs: map[string]*packages.Package{},
 		SSAPkgs: map[string]*ssa.Package{}, Timing: map[string]float64{}}
@@ -114,6 +121,9 @@ func Load(repo string, cfg Config) (*Program, error) {
 			Env:   env(cfg),
 			Fset:  p.Fset,
 			Tests: false,
+		}
+		if len(overlay) > 0 {
+			pc.Overlay = overlay
 		}
 		pkgs, err := packages.Load(pc, "./...")
 		if err != nil {
@@ -148,6 +158,18 @@ func Load(repo string, cfg Config) (*Program, error) {
 		})
 	}
 	p.Timing["load_s"] = time.Since(t0).Seconds()
+	p.Overlay = overlay
+	if withSSA {
+		p.BuildSSA()
+	}
+	return p, nil
+}
+
+// BuildSSA builds go/ssa for the loaded packages (idempotent).
+func (p *Program) BuildSSA() {
+	if p.SSA != nil {
+		return
+	}
 	t1 := time.Now()
 
 	// One SSA program for all three modules.  Packages shared between modules were loaded once per
@@ -200,7 +222,6 @@ func Load(repo string, cfg Config) (*Program, error) {
 	for _, pk := range p.Initial {
 		p.Stats.SourceFiles += len(pk.Syntax)
 	}
-	return p, nil
 }
 
 // InRepo reports whether f is defined in one of the repository's modules.
